@@ -8,8 +8,8 @@ BND = "bounded contract checking of the real functions against independent spec 
 NOTE_MIX = "trusted: z3/cvc5, the pyvc VC generator (cross-checked against CPython and by replaying every counter-model), CPython semantics of DESIGN 2.2, assumed library contracts listed in the evidence; bounded part: enumeration bounds stated in the evidence, oracles of bounded/ written from the specification text"
 NOTE_BND = "nothing proved; trusted: the independent oracles in bounded/ (written from sphinx/islaspec.rst), parse_isla as front end of ref_eval, enumeration bounds stated in the evidence"
 CHECKS = {
-    "C01": ("other", "Bounded: every tree returned by solve() over a grid of grammars/constraints/settings is checked closed, grammar-valid, in the language and satisfying the constraint by independent oracles. Proved (supporting only): call shape of the elimination chain and fast path, cached open-flag invariant of DerivationTree through __init__/is_open/replace_path, list_del. The elimination chain itself is not proved.", NOTE_MIX, MIX, "6/C01"),
-    "C02": ("other", "Proved on the AST: every dispatch-chain element on the solve path accepts the arguments it is called with (no TypeError instead of Z3 fallback). Bounded: exceptions escaping solve() and stickiness of StopIteration/TimeoutError over call histories.", NOTE_MIX, MIX, "6/C02"),
+    "C01": ("other", "Bounded: every tree returned by solve() over a grid of grammars/constraints/settings is checked closed, grammar-valid, in the language and satisfying the constraint by independent oracles. Proved (supporting only): call shape of the elimination chain and fast path, cached open-flag invariant of DerivationTree through __init__/is_open/replace_path, list_del; the nested solve() of the unsat support restores queue / solutions / start_time / timeout_seconds on every normal exit (frame of the save-restore block in process_new_state). The elimination chain itself is not proved.", NOTE_MIX, MIX, "6/C01"),
+    "C02": ("other", "Proved on the AST: every dispatch-chain element on the solve path accepts the arguments it is called with (no TypeError instead of Z3 fallback); the two sticky exits of solve() (exhausted queue -> StopIteration, passed deadline -> TimeoutError, nothing else written); operator binding of the 36 fast-path cases; the save-restore frame around the nested solve() of the unsat support. Bounded: exceptions escaping solve() and stickiness of StopIteration/TimeoutError over call histories.", NOTE_MIX, MIX, "6/C02"),
     "C03": ("other", "Proved: trie key encoding/decoding incl. round-trip and prefix lemmas, Kleene all/any, the verdict combination at the end of evaluate_quantified_formula, the semantic-predicate branch of evaluate_predicates_action (quantifier-elimination strategy: FALSE is never mistaken for not-ready), SMT atoms with unassigned variables / open substitutions are UNKNOWN, call shape of the evaluator chains. Bounded: evaluate()/check() == independent reference semantics on enumerated closed trees (both strategies reached).", NOTE_MIX, MIX, "6/C03"),
     "C04": ("other", "Proved for all paths: before/after/inside/direct_child/same_position/different_position against the document-order definition, plus lemmas that the definition is a strict order total on prefix-incomparable nodes. nth/consecutive/level: bounded exhaustive small-scope check against independent definitions, not proved.", NOTE_MIX, MIX, "6/C04"),
     "C05": ("other", "Proved: 17 fast-path constructors (not/and/or/=/</<=/>/>=/-/mod/str.len/str.++/str.at/str.substr/str.to_code) equal the solver's own operators and never raise; operator binding: each of the 36 case functions of the dispatch chain answers only (for 31 of them: exactly) for the z3 head symbol its constructor was verified against, from the real guard text over an assumed model of z3's term inspection; call shape of the evaluator chain. Bounded: regex constructors, div/pow/str.to.int, is_valid and evaluate end-to-end against Z3.", NOTE_MIX, MIX, "6/C05"),
